@@ -6,6 +6,7 @@ from .prune import is_call
 
 LEVEL = 'other'
 RULES = {
+    'C09.R7': 'the conjunction the region builders hand out is the conjunction: intersection_n stacks its operands, and the empty conjunction (the root) is the whole space (shared with C14.R1)',
     'C09.R6': helpers.RULE_TEXT,
     'C09.R1': 'one closed sign convention: evaluate_decision tests (mat·x - bias) <= 0 and sets bit i for a satisfied row; both path-polytope builders map '
               'label 1 -> (+mat,+bias), label 0 -> (-mat,-bias) (same factor on both fields, other labels panic) on the predicate of the edge\'s source node',
@@ -22,7 +23,7 @@ WRAPPERS = {
     'AffTree::polyhedra_iter': ('PolyhedraIter::new(self.tree)', [], 'iterator over this tree'),
     'DfsNodeData::extract': ('tuple(self.depth, self.index, self.n_remaining)', [], '(depth, index, n_remaining) in this order'),
 }
-FLOORS = {'C09.R6': 9, 'C09.R1': 4, 'C09.R2': 10, 'C09.R3': 1, 'C09.R4': 8, 'C09.R5': 14}
+FLOORS = {'C09.R7': 1, 'C09.R6': 9, 'C09.R1': 4, 'C09.R2': 10, 'C09.R3': 1, 'C09.R4': 8, 'C09.R5': 14}
 EXPLANATION = 'The evaluator and the two region builders implement the same closed half-space per label, for every tree and input (exact arithmetic).'
 DOES_NOT_DECIDE = ('traversals started below the root with PolyhedraGen::with_root (the path above the start node is not reconstructed); disjoint interiors and coverage (set reasoning); '
                    'ordering/depth counters (C13)')
@@ -199,6 +200,7 @@ def polyhedra_iter_next(ctx):
 
 def run(ctx):
     helpers.run_for(ctx)
+    helpers.share_from(ctx, 'c14', 'C09.R7', ['AffFuncBase::intersection_n'])
     prune.check_wrappers(ctx, 'C09.R2', WRAPPERS)
     polyhedra_iter_next(ctx)
     F = ctx.facts
@@ -304,8 +306,10 @@ def run(ctx):
         ok = len(ev) == 1 and len(pushes) == 1 and is_call(pushes[0][1][1], 'AffTree::evaluate_decision') and pushes[0][1][1][3] == ev[0][0]
         cur = ev[0][1][1] if ev else None
         step = False
+        start = None
         if ok and cur[0] == 'var':
             for dbb, didx, e in R.var_defs(cur[1]):
+                e0 = e
                 # the step may sit in a helper returning Option (`cursor = self.successor(cursor, label)?`): the value that continues is its payload
                 while e[0] == 'agg' and isinstance(e[1], tuple) and e[1][1] == 'Option' and e[1][2] == 'Some' and len(e[2]) == 1:
                     e = e[2][0]
@@ -315,6 +319,10 @@ def run(ctx):
                     idx = e[2][1]
                     if idx[0] == 'index' and idx[1] == ('field', cur, 'children') and is_call(idx[2], 'AffTree::evaluate_decision') and idx[2][3] == ev[0][0]:
                         step = True
+                        continue
+                # every other definition is where the walk starts: the node the caller handed in
+                if start is not False:
+                    start = e0[0] == 'param' and e0[1] != 'self'
         rets = [e for _, e in R.return_expr()]
         ret_ok = any(any(isinstance(x, tuple) and x[:2] == ('agg', 'tuple') and x[2][0] == cur and s(x[2][1]) == s(pushes[0][1][0]) for x in walk(e)) for e in rets) if ok else False
         # the leaf test is on the current node
@@ -323,7 +331,10 @@ def run(ctx):
             d = R.switch_discr(i)
             if d and d == ('field', cur, 'isleaf'):
                 leaf = True
-        if ok and step and ret_ok and leaf:
+        if ok and step and ret_ok and leaf and start is False:
+            ctx.bad('C09.R2', 'AffTree::find_terminal#path', 'the walk does not start at the node the caller handed in (the start argument is ignored: from a non-root start node the '
+                    'labels and the terminal belong to another path)', b.span)
+        elif ok and step and ret_ok and leaf:
             ctx.ok('C09.R2', 'AffTree::find_terminal#path', 'pushes the label it follows (children[label]) and returns the reached node with that sequence', b.span)
         else:
             ctx.bad('C09.R2', 'AffTree::find_terminal#path', 'label sequence and followed edges disagree (push/evaluate/successor/return: %s %s %s %s)' % (ok, step, ret_ok, leaf), b.span)
